@@ -529,6 +529,17 @@ func (e *Enc) declSlice() {
 	e.decls.fun("sl_len", []string{"Int"}, "Int")
 	e.decls.fun("sl_cap", []string{"Int"}, "Int")
 	e.decls.add("ax:slnil", "(assert (and (= (sl_len 0) 0) (= (sl_cap 0) 0) (= (sl_base 0) 0) (= (sl_off 0) 0)))")
+	// eix(off, i): position of element i of a slice whose window starts at off. An uninterpreted symbol (with its
+	// defining axiom) instead of (+ off i): the solvers rewrite arithmetic terms, which makes quantified facts about
+	// slice elements unmatchable; (eix off k) is a stable trigger.
+	e.decls.fun("eix", []string{"Int", "Int"}, "Int")
+	e.decls.add("ax:eix", "(assert (forall ((o Int) (i Int)) (! (= (eix o i) (+ o i)) :pattern ((eix o i)))))")
+}
+
+// eix: the position of element i in the backing array of a slice with window offset off.
+func (e *Enc) eix(off, i Term) Term {
+	e.declSlice()
+	return app(SInt, "eix", off, i)
 }
 func (e *Enc) declStr() {
 	e.decls.fun("strlen", []string{"Int"}, "Int")
